@@ -129,6 +129,62 @@ def count_outlines(case, out):
     return len(names), 0
 
 
+
+def suite_try_reuse(ctx, res, n):
+    """Tie for Model/Sem.lean `tryReuse` (theorems only_disable_disables, C06.unsafe_never_reused, C06.disabled_never_reuses): the real
+    GlyphReuseCache.try_reuse with picosvg's normalize/affine_between replaced by a scripted oracle (every path hits the cache, the oracle
+    answers a given affine or None)."""
+    from fractions import Fraction as F
+    from nanoemoji import glyph_reuse
+    from picosvg.svg_transform import Affine2D
+    from harness.common import fr
+    import math
+
+    rng = ctx.rng
+    cases = []
+    for _ in range(n):
+        tol = rng.choice([0.1, 0.05, 1.0, -1, -1, 0.25])
+        r = rng.random()
+        if r < 0.15:
+            aff = None
+        elif r < 0.35:   # quarter turns and mirrors: matrix entries a = d = 0 or negative
+            aff = rng.choice([(0, 1, -1, 0), (0, -1, 1, 0), (-1, 0, 0, 1), (1, 0, 0, -1), (-1, 0, 0, -1), (0, 1, 1, 0)]) + (rng.randint(-500, 500), rng.randint(-500, 500))
+        elif r < 0.55:   # beyond Fixed 16.16
+            aff = (rng.choice([1, 40000, 0.5]), 0, 0, rng.choice([1, -33000.5, 2]), rng.choice([0, 32768, -32769, 100]), rng.choice([0, 40000.25, 7]))
+        elif r < 0.7:    # tiny scales
+            aff = (rng.choice([1e-6, 1 / 65536, 1 / 131072]), 0, 0, rng.choice([1e-6, 1 / 65536, 1]), rng.randint(-50, 50), rng.randint(-50, 50))
+        else:
+            a = math.radians(rng.choice([17, 30, 45, 123, 200]))
+            s_ = rng.choice([0.5, 1, 1.5, 2])
+            aff = (round(s_ * math.cos(a), 6), round(s_ * math.sin(a), 6), round(-s_ * math.sin(a), 6), round(s_ * math.cos(a), 6), rng.randint(-900, 900), rng.randint(-900, 900))
+        cases.append((tol, aff))
+    orig_ab, orig_norm = glyph_reuse.affine_between, glyph_reuse.normalize
+    real = []
+    try:
+        glyph_reuse.normalize = lambda path, tolerance: type("P", (), {"d": "M0,0 L1,0 L0,1 Z"})()
+        for tol, aff in cases:
+            glyph_reuse.affine_between = (lambda a: (lambda s1, s2, tolerance: None if a is None else Affine2D(*a)))(aff)
+            cache = glyph_reuse.GlyphReuseCache(tol)
+            cache.add_glyph("donor", "M0,0 L10,0 L0,10 Z")
+            try:
+                r = cache.try_reuse("M5,5 L15,5 L5,15 Z")
+                real.append(None if r is None else [fr(F(v)) for v in r.transform])
+            except Exception as e:  # noqa
+                real.append({"exc": type(e).__name__})
+    finally:
+        glyph_reuse.affine_between, glyph_reuse.normalize = orig_ab, orig_norm
+    ops = [{"op": "try-reuse", "tolerance": fr(F(tol)), "affine": None if aff is None else [fr(F(v)) for v in aff]} for tol, aff in cases]
+    for (tol, aff), r, m in zip(cases, real, ctx.driver.run(ops)):
+        res.count(key=("try-reuse", tol, aff), nontrivial=aff is not None and tol != -1)
+        res.stat("try-reuse:" + ("none" if r is None else "reused" if isinstance(r, list) else "exc"))
+        if m.get("reuse") != r:
+            res.add_tie_break("GlyphReuseCache.try_reuse vs Model tryReuse", {"tolerance": tol, "oracle": aff}, m, r)
+        # the property's side: a representable placing transform offered by the oracle is never refused (reuse enabled)
+        if tol != -1 and aff is not None and r is None and all(-32768 <= v <= (2 ** 31 - 1) / 65536 for v in aff):
+            res.add_cex("try_reuse refuses a placing transform that fits Fixed 16.16 although reuse is enabled",
+                        {"call": "GlyphReuseCache.try_reuse", "tolerance": tol, "oracle_affine": list(aff)}, {"site": "c19-try-reuse", "affine": list(aff)})
+
+
 def suite(ctx, res, n):
     for i in range(n):
         fmt = FORMATS[i % len(FORMATS)]
@@ -173,6 +229,7 @@ def run(ctx, res):
     res.rule = ("one base shape (polygon/blob/ellipse/ring/rect) + 2..4 copies, split over two glyphs; isometries: translations for every kind and "
                 "format, plus rotate (17..271 deg) / rot90 / mirrors for rectangles in the COLR formats (the classes "
                 "that hold on the unchanged tree; other classes are known findings with frozen witnesses); viewBox in {24,48,100,128}; tolerance in {0.1,0.25,1}; formats glyf_colr_1, glyf_colr_0, picosvg; every case non-trivial")
+    suite_try_reuse(ctx, res, ctx.budget(400, 8000))
     suite(ctx, res, ctx.budget(60, 1500))
 
 
